@@ -181,20 +181,17 @@ def Parser.parseWithUnit (p : Parser) (specs : List Spec) : Parser × Except Par
     (p, .ok { s with unitIdx := some idx })
   | r => r
 
+/-- A `p.makeProjection(s, "", field)` call of `Residue` (its error result is ignored). -/
+def residueStep (st : Parser × Proj) (sp : Spec) : Parser × Proj :=
+  match makeProjection st.1 st.2 sp with
+  | (p, .ok s) => (p, s)
+  | (p, .error _) => (p, st.2)
+
 /-- `ProjectionParser.Residue`. -/
 def Parser.residue (p : Parser) : Parser × Proj :=
-  let s := newProjection
-  let (p, s) :=
-    if !p.haveConfig then
-      match makeProjection p s { key := dotConfig, order := .first } with
-      | (p, .ok s) => (p, s)
-      | (p, .error _) => (p, s)
-    else (p, s)
-  if !p.haveFullname then
-    match makeProjection p s { key := dotFullname, order := .first } with
-    | (p, .ok s) => (p, s)
-    | (p, .error _) => (p, s)
-  else (p, s)
+  let st := (p, newProjection)
+  let st := if !st.1.haveConfig then residueStep st { key := dotConfig, order := .first } else st
+  if !st.1.haveFullname then residueStep st { key := dotFullname, order := .first } else st
 
 /-! ### Projection of a result -/
 
